@@ -159,18 +159,7 @@ def _cases(draw):
         if g.p("_", 0.5):
             form["extra_sheets"] = [g.pick(["settings2", "setting", "notes"])]
     if g.p("_", 0.12):
-        # one column spells a language with a doubled or non-breaking space: still the same language (header tokens are cleaned)
-        sheet_rows = [n["c"] for n, _ in model.walk(nodes)] if g.p("_", 0.6) else [r for lst in form.get("lists", []) for r in lst["rows"]]
-        cols = sorted({k.split("::")[0] for r in sheet_rows for k in r if "::" in k and " " in k.split("::", 1)[1]
-                       and k.split("::")[0] in ("label", "hint", "constraint_message", "required_message", "guidance_hint", "image", "audio", "video")})
-        if cols:
-            col = g.pick(cols)
-            sp = g.pick(["  ", "\xa0", " \xa0", "\t"])
-            for r in sheet_rows:
-                for k in [k for k in r if k.startswith(col + "::") and " " in k]:
-                    b, lang = k.split("::", 1)
-                    val = r.pop(k)
-                    r[b + "::" + lang.replace(" ", sp, 1)] = val
+        gen.respell_language(g, form)
     return {"form": form, "meta": {"kind": "random"}}
 
 
